@@ -351,7 +351,7 @@ func constBoundSites(fn *ssa.Function) []boundSite {
 				if k, ok := constInt(x.Index); ok {
 					out = append(out, boundSite{in, x.X, k + 1, fmt.Sprintf("[%d]", k)})
 				}
-			case *ssa.Lookup:
+			case *ssa.Index:
 				if !isStringT(x.X.Type()) {
 					continue
 				}
